@@ -18,7 +18,7 @@ ASSUMPTIONS = ["values annotated on non-note tokens (NaN or imputed) are not dem
                "monotonicity is demanded only for streams produced by tokenise"]
 REQUIRED_FLAGS = ["bar_in_partly_filled_bar", "signature_mid_bar_ignored", "signature_at_bar_start", "bare_running_value_token",
                   "rest_beyond_capacity", "note_after_rest", "imputation_on", "imputation_off", "graph_edge_replayed",
-                  "tokenise_stream_checked", "pad_start_stop"]
+                  "tokenise_stream_checked", "pad_start_stop", "graph_probe"] + ["pitch_class_%d" % i for i in range(12)]
 
 FL = list(itertools.product((True, False), repeat=4))   # running, fuse_track, fuse_value, fuse_velocity
 _TOKS = {}
@@ -50,6 +50,8 @@ def units(ctx):
             yield ("graph", fi, imp)
     for fi in range(16):
         yield ("pieces", fi)
+    for fi in (0, 15):
+        yield ("pitches", fi)
     if ctx["tier"] != "quick":
         for fi in (0, 15):
             t = tok(FL[fi], nt=1)
@@ -179,14 +181,25 @@ def check_node(t, stream, imp, clock_before, parent_info, parent_notes):
 
 
 def replay_stream(t, stream, imp):
-    """recompute everything for a stream from scratch (used for replay and for graph edges)"""
-    clock, info, notes = Clock(), None, collections.Counter()
-    for i in range(len(stream)):
-        v, clock2, info2, notes2, facts = check_node(t, stream[: i + 1], imp, clock, info if i else None, notes)
-        if i == len(stream) - 1:
-            return v, facts
-        clock, info, notes = clock2, info2, notes2
-    return [], []
+    """oracle for the LAST token of a stream, everything recomputed from scratch (replay, graph edges, probes)"""
+    clock = Clock()
+    for tk in stream[:-1]:
+        clock = clock.step(tk)[0]
+    parent = list(stream[:-1])
+    try:
+        pinfo = t.get_info(parent, flag_impute_values=imp) if parent else None
+        pnotes = noteons(t, parent) if parent else collections.Counter()
+    except Exception as e:  # noqa: BLE001
+        return [("parent_stream_rejected", f"{type(e).__name__}: {e}")], []
+    v, _, _, _, facts = check_node(t, list(stream), imp, clock, pinfo, pnotes)
+    return v, facts
+
+
+def probes(t, clock):
+    """streams appended after an edge to read the implementation's whole clock state (time, in-bar time, remaining
+    and total capacity) through behaviour only; the reference clock predicts every answer"""
+    note = next(k for k in t.dictionary if "pit" in k)
+    return [[note], ["bar", note], ["bar", "bar", note], ["tsg_03_08", "bar", note]]
 
 
 def run_tree(acc, t, cfgdesc, imp, prefix, maxlen):
@@ -250,6 +263,17 @@ def run_graph(acc, t, cfgdesc, imp, horizon):
                 edges += 1
                 record(acc, cfgdesc, imp, rep + [tk], v, facts)
                 acc.flags["graph_edge_replayed"] += 1
+                # states are merged on the reference clock's state: justify every merge by reading the implementation's
+                # clock state after this edge through the probe streams (all four after clock tokens, the note probe else)
+                if not v:
+                    ps = probes(t, c2)
+                    for pr in (ps if tk[:3] in ("rst", "bar", "tsg") else ps[:1]):
+                        pv, pf = replay_stream(t, rep + [tk] + pr, imp)
+                        acc.flags["graph_probe"] += 1
+                        if pv:
+                            record(acc, cfgdesc, imp, rep + [tk] + pr, pv, pf)
+                            v = pv
+                            break
                 if c2.key() not in seen and not v:
                     seen[c2.key()] = rep + [tk]
                     nxt.append(rep + [tk])
@@ -322,6 +346,17 @@ def run_unit(unit, acc, ctx):
     elif kind == "graph":
         _, fi, imp = unit
         run_graph(acc, tok(FL[fi]), {"fl": list(FL[fi]), "nt": 2, "small": True}, imp, ctx["horizon"])
+    elif kind == "pitches":
+        # every pitch of the default vocabulary (all twelve pitch classes, both range limits)
+        t = tok(FL[unit[1]], nt=1, small=False)
+        desc = {"fl": list(FL[unit[1]]), "nt": 1, "small": False}
+        for tk in t.dictionary:
+            if "pit_" in tk and ("val_24" in tk or "val" not in tk):
+                for imp in (False, True):
+                    for pre in ([], ["rst_12"], ["bar", "rst_06"]):
+                        v, facts = replay_stream(t, pre + [tk], imp)
+                        record(acc, desc, imp, pre + [tk], v, facts)
+                        acc.flags["pitch_class_%d" % (int(tk.split("pit_")[1][:3]) % 12)] += 1
     else:
         run_pieces(acc, FL[unit[1]], ctx)
 
@@ -338,3 +373,4 @@ def replay(case, ctx):
 
 def post(tot, ctx):
     tot.extra["clock_graph_states"] = tot.flags.pop("graph_state", 0)
+    tot.extra["clock_graph_probes"] = tot.flags.get("graph_probe", 0)
